@@ -140,7 +140,7 @@ func (e *Engine) encodeFunction(fn *ssa.Function) *FuncResult {
 	}
 	// optional obligations (sort determinism) are appended with their own background prefix
 	for _, so := range c.sortTotal {
-		o := &Obligation{Name: so.name, Kind: "total-order", Guard: so.guard, Goal: so.goal, NAsserts: so.nAsserts, Func: key, Text: "comparator " + so.cmp + " orders every two distinct positions"}
+		o := &Obligation{Name: so.name, Kind: "total-order", Guard: so.guard, Goal: so.goal, NAsserts: so.nAsserts, Func: key, Blk: so.blk, Text: "comparator " + so.cmp + " orders every two distinct positions"}
 		c.obls = append(c.obls, o)
 	}
 	res.Obligations = c.obls
